@@ -10,33 +10,57 @@ import random as _random
 
 CLAIM = dict(
     text=("Machine-checked proof (Lean 4) over ALL vertex/resource dictionaries, machines (dead chips, resource "
-          "exceptions), constraint lists, vertex orders, chip orders and RNG outcomes: whatever the sequential placer "
-          "(hence Hilbert, RCM, breadth-first for any order their order functions produce), the random placer and the "
-          "annealer's initial placement / trivial-solution path return is Feasible (every vertex on exactly one working "
-          "chip, demand + reservations <= capacity per chip and resource, location and same-chip constraints honoured) "
-          "- proved through the same-chip merge, the constraint loop and the expansion of merged vertices; the chip scan "
-          "of the sequential placer never exceeds one round per vertex (termination); the sequential placer succeeds "
-          "under the unit-demand hypothesis (counting argument); the decidable oracle equals the specification. Tied to "
-          "the code by exact correspondence (recorded vertex/chip orders, RNG draws, per-step annealing proposals "
-          "replayed through the model of the Python kernel, place/utils.py functions called directly) and by the Lean "
+          "exceptions), constraint lists, vertex orders, chip orders and RNG outcomes. SOUNDNESS: whatever the "
+          "sequential placer (hence Hilbert, RCM, breadth-first for any order their order functions produce), the random "
+          "placer and the annealer with the Python kernel return is Feasible (every vertex on exactly one working chip, "
+          "demand + reservations <= capacity per chip and resource, location and same-chip constraints honoured) - "
+          "proved through the same-chip merge, the constraint loop, the expansion of merged vertices and, for the "
+          "annealer, a state invariant of _step/_get_candidate_swap/_swap/revert (free = capacity - load and >= 0 per "
+          "chip and resource, fixed vertices unmoved, location->vertices lookup consistent) preserved for EVERY proposal "
+          "(source vertex, destination chip, accept bit) and lifted over every proposal list, i.e. every RNG / "
+          "temperature / cost outcome. ONLY DOCUMENTED ERRORS: under the documented domain the models of the sequential "
+          "placer (default or permutation vertex order, every chip order), the random placer and the annealer (initial "
+          "placement and every kernel run) fail only with InsufficientResourceError / InvalidConstraintError (the model's "
+          "BadOracle marks an impossible sequence of RNG draws) - never KeyError/IndexError/ValueError. TERMINATION: the "
+          "chip scan of the sequential placer never exceeds one round per vertex. COMPLETENESS under the unit-demand "
+          "hypothesis: sequential placer (every vertex order / covering chip order), Hilbert placer (coverage "
+          "discharged), random placer (every draw sequence), annealer (every shuffle, every proposal list). HILBERT: "
+          "the model of hilbert.py's generator visits every point of the 2^L x 2^L square exactly once for EVERY "
+          "level L, so hilbert_chip_order lists every chip of every w x h machine exactly once. The decidable oracle "
+          "equals the specification. Tied to the code by exact correspondence (recorded vertex/chip orders, RNG draws, "
+          "per-step annealing proposals replayed through the model of the Python kernel, hilbert() for levels 0..8 and "
+          "the level/chip order for machine sizes up to 256, place/utils.py functions called directly) and by the Lean "
           "Feasible predicate run on every placement of every placer, both annealing kernels included; undocumented "
           "exceptions and failures under the unit-demand hypothesis are reported for every placer."),
     design="3/C02",
-    note=("NOT proved, only validated on every run (exact step-by-step correspondence + Feasible oracle on outputs): the "
-          "annealing swap step invariant (saStep_inv), the only-documented-errors clause as a theorem, completeness of "
-          "the random placer and of the annealer. rig_c_sa (C annealing kernel) is an opaque binary: covered only by "
-          "the Feasible oracle on its outputs. Float cost/temperature arithmetic of the annealer is abstracted to the "
-          "recorded accept decision; termination of the temperature schedule and of the `while dst == src` rejection "
-          "sampling is not proved (bounded in the harness through the on_temperature_change callback). Domain "
-          "(theorem hypotheses, applied to the generators): vertices_resources is a dict of non-negative demands for "
-          "resources the machine has, chip resources non-negative; resource exceptions and per-chip reservations only "
-          "on working chips; a same-chip group is pinned to at most one chip; constraints mention only known vertices; "
-          "custom vertex orders list every vertex; with no vertex at all reservations must fit the chips (documented "
-          "as undefined behaviour otherwise)."),
+    note=("NOT proved, only validated on every run: rig_c_sa (C annealing kernel) is an opaque binary, covered only by the "
+          "Feasible oracle on its outputs (and by undocumented-exception / completeness reporting). The vertex orders "
+          "computed by breadth_first_vertex_order / rcm and RCM's chip order are not modelled: they are recorded and handed "
+          "to the model (the theorems hold for every order; the only-documented-errors theorem needs a permutation of the "
+          "vertices, the completeness theorem a chip order covering the free capacity - proved for Hilbert and "
+          "list(machine) only). Float cost/temperature arithmetic of the annealer is abstracted to the recorded accept "
+          "decision; termination of the temperature schedule and of the `while dst == src` rejection sampling is not "
+          "proved (bounded in the harness through the on_temperature_change callback). The float expression "
+          "int(ceil(log(n, 2.0))) of hilbert_chip_order is modelled by the exact ceil-log2 and compared for n <= 256 "
+          "(coverage holds for any level >= the exact one). Domain (theorem hypotheses WF / Consistent / InDomain / "
+          "EmptyOK, applied to the generators): vertices_resources is a dict of non-negative demands for resources the "
+          "machine has, chip resources non-negative; every resource exception lists the machine's resources; resource "
+          "exceptions and per-chip reservations only on working chips; a same-chip group is pinned to at most one chip; "
+          "constraints mention only known vertices; custom vertex orders are permutations of the vertices; with no "
+          "vertex at all reservations must fit the chips (documented as undefined behaviour otherwise). The shuffles "
+          "of the annealer are oracles assumed to be lists of working chips / of the movable vertices (permutations for "
+          "completeness); annealing proposals are assumed to name placed vertices (a fixed source vertex or dst == src is "
+          "rejected by the model as BadOracle)."),
     technique="Lean 4 theorems over a hand-written model + differential correspondence + Lean spec as oracle")
 
 THEOREMS = ["seqPlace_sound", "randPlace_sound", "saPlace_initial_sound", "seqPlace_terminates",
-            "seqPlace_complete_unit", "validPlacement_iff"]
+            "seqPlace_complete_unit", "validPlacement_iff",
+            "saStep_inv", "saRun_inv", "saStart_inv", "saPlace_sound",
+            "seqPlace_documented", "randPlace_documented", "saPlace_initial_documented",
+            "randPlace_complete_unit", "saPlace_initial_complete_unit",
+            "hilbert_curve_exact", "hilbert_covers", "hilbertPlace_complete_unit",
+            "saStep_documented", "saPlace_documented", "saPlace_complete_unit",
+            "seqPlace_complete_unit_default"]
 
 RULE = ("problems: 0-40 vertices (0-3 units of 1-3 resources, some needing nothing), random nets, machines 1x1..10x10 "
         "with dead chips and per-chip resource exceptions sized so that packing is tight, location constraints (also on "
@@ -436,7 +460,8 @@ def run_placers(prob):
             ok_vo = vo is None or all(isinstance(v, int) for v in vo)
             if ok_vo:
                 req = dict(base, op="seq", vo=vo, co=None if co_ is None else nonneg_chips(co_))
-        add(name, out, req, captured=len(cap))
+        add(name, out, req, captured=len(cap),
+            chip_order=(cap[0][1] if (name == "hilbert" and len(cap) == 1) else None))
 
     # random placer
     vr, nets, machine, cs = build(prob)
@@ -605,6 +630,9 @@ def eval_problems(ctx, probs):
             if r["req"] is not None:
                 reqs.append(dict(r["req"], suite="c02"))
                 slots.append((r, "model"))
+            if r.get("chip_order") is not None:
+                reqs.append(dict(base, suite="c02", op="hilbert", level=None))
+                slots.append((r, "hil"))
             if "ok" in r["impl"]:
                 enc = enc_placement(r["impl"]["ok"])
                 r["enc"] = enc
@@ -659,6 +687,11 @@ def eval_problems(ctx, probs):
                                   "no same-chip groups, fixed vertices fit and the capacity suffices" % (name, impl["err"]),
                                   case)
             # --- correspondence with the model
+            if r.get("chip_order") is not None:
+                ctx.traces += 1
+                if [list(c) for c in r["chip_order"]] != r["hil"].get("order"):
+                    ctx.mismatch("c02.hilbert-order", "chip order handed to sequential_place: %r..., model: %r..." % (
+                        r["chip_order"][:8], str(r["hil"])[:100]), case)
             if r["req"] is not None:
                 model = r["model"]
                 if name == "sa-python":
@@ -697,8 +730,53 @@ def eval_problems(ctx, probs):
         ctx.case(desc, nontriv)
 
 
+def hilbert_checks(ctx):
+    """correspondence of hilbert.py's generator / level computation with the Lean model (the object of
+    the coverage theorems): `hilbert(level)` for levels 0..8, the level chosen for every machine size up to
+    256, the chip order handed to the sequential placer for a range of machine shapes"""
+    from rig.place_and_route.place.hilbert import hilbert, hilbert_chip_order
+    from rig.place_and_route import Machine
+    base = {"suite": "c02", "vr": [], "cs": [], "w": 1, "h": 1, "res": [], "exc": [], "dead": []}
+    reqs, exp = [], []
+    for level in range(0, 9):
+        reqs.append(dict(base, op="hilbert", level=level))
+        exp.append(("hilbert(%d)" % level, [list(q) for q in hilbert(level)]))
+    for d in range(0, 257):
+        for w, h in ((d, 1), (1, d), (d, d)):
+            it = hilbert_chip_order(Machine(w, h))
+            first = list(zip(range(3), it))      # the generator is lazy: only its first points are drawn
+            n = sum(1 for _ in it) + len(first) if d <= 16 else None
+            reqs.append(dict(base, op="hilbert_level", w=w, h=h))
+            exp.append(("level(%d,%d)" % (w, h), None if n is None else n))
+    shapes = [(w, h) for w in range(0, 10) for h in range(0, 10)] + [(16, 3), (17, 2), (5, 31), (32, 32), (33, 1)]
+    for w, h in shapes:
+        reqs.append(dict(base, op="hilbert", level=None, w=w, h=h))
+        exp.append(("order(%d,%d)" % (w, h), [list(q) for q in hilbert_chip_order(Machine(w, h))]))
+    replies = ctx.lean(reqs)
+    import math
+    for (name, want), req, got in zip(exp, reqs, replies):
+        ctx.traces += 1
+        if name.startswith("level"):
+            md = max(req["w"], req["h"])
+            lv = int(math.ceil(math.log(md, 2.0))) if md >= 1 else 0     # the expression of hilbert_chip_order
+            if want is not None and want != 4 ** lv:
+                ctx.mismatch("c02.hilbert-level", "%s: hilbert_chip_order yields %d points, level %d expected"
+                             % (name, want, lv), {"hilbert": name})
+            if got != lv:
+                ctx.mismatch("c02.hilbert-level", "%s: impl level %r, model %r" % (name, lv, got), {"hilbert": name})
+        elif name.startswith("order"):
+            if got.get("order") != want:
+                ctx.mismatch("c02.hilbert-order", "%s: impl %r... model %r..." % (name, want[:6], str(got)[:80]),
+                             {"hilbert": name})
+        elif got != want:
+            ctx.mismatch("c02.hilbert-curve", "%s: impl %r... model %r..." % (name, want[:6], got[:6]),
+                         {"hilbert": name})
+    ctx.tag("hilbert-generator-checked")
+
+
 def run(ctx):
     ctx.extra["rule"] = RULE
+    hilbert_checks(ctx)
     ctx.extra["trusted_base"] = ["rig_c_sa (compiled annealing kernel outside /repo): opaque, checked only by the Feasible oracle",
                                  "the annealer's float cost/temperature arithmetic is abstracted to the recorded accept decision"]
     ctx.assumptions += [
